@@ -250,6 +250,7 @@ def concretize(case, rnd, n, harness_exe, thorough, session=None):
         steps.append({"op": "close", "conn": cid})
     steps.append({"op": "snapshot", "tag": rid + ":after"})
     steps.append({"op": "fault", "rules_lookup_fails": False})
+    steps.append({"op": "mark", "tag": "end:" + rid})
     meta = {
         "id": rid, "conn": cid, "case": case, "attributed": bool(own["has"]), "elevated": bool(own["elevated"]), "dest": dest,
         "uid": uid, "caller": caller, "rules": mode, "doc": doc, "fault": bool(case["fault"]),
@@ -514,7 +515,7 @@ def pipeline(c):
         for s in steps:
             cur.append(s)
             closes = s.get("op") == "close" and str(s.get("conn", "")).startswith("k")
-            single_end = (s.get("op") == "fault" and s.get("rules_lookup_fails") is False and len(cur) > 3
+            single_end = (s.get("op") == "mark" and str(s.get("tag", "")).startswith("end:")
                           and not any(str(x.get("conn", "")).startswith("k") for x in cur))
             if closes or single_end:
                 for x in cur:
